@@ -103,6 +103,15 @@ def check_cooling(case):
     cpt = float(comp.get_specific_heat(t0))
     require(abs(d - cpt) <= 1e-9 * sum(abs(c[i]) * t0**i for i in range(4)) + 1e-11 * scale(t0 + 2, t1) + 1e-300,
             "dQ/dt0 at %r = %r but Cp = %r", t0, d, cpt)
+    # array-valued temperatures (numpy broadcasting): same numbers, arguments untouched
+    import numpy
+
+    a0, a1 = numpy.array([t0, t2]), numpy.array([t1, t1])
+    qa = call(comp.get_cooling_heat, a0, a1)
+    require(not is_raised(qa), "get_cooling_heat with array temperatures raised %r", qa)
+    require(a0[0] == t0 and a0[1] == t2 and a1[0] == t1 and a1[1] == t1, "get_cooling_heat modified its array arguments: %r, %r", a0, a1)
+    require(abs(float(qa[0]) - q01) <= tol and abs(float(qa[1]) - q(t2, t1)) <= 1e-12 * scale(t2, t1) + 1e-300,
+            "get_cooling_heat with array temperatures gives %r, scalar calls give %r, %r", qa, q01, q(t2, t1))
     return {"nontrivial": t0 != t1 and t1 != t2, "classes": ["builtin" if "builtin" in case["component"] else "random"]}
 
 
